@@ -44,7 +44,7 @@ Inductive case :=
 | CFileSet (files : list (list Z)) (idx : Z) (obs : option (Z * Z * Z)).
 
 Definition fx_or (a b : fixes) : fixes :=
-  mkFixes (fx_site a || fx_site b) (fx_at a || fx_at b)
+  mkFixes (fx_site a || fx_site b) (fx_implicit a || fx_implicit b) (fx_at a || fx_at b)
           (fx_nofile a || fx_nofile b) (fx_term a || fx_term b) (fx_char a || fx_char b).
 
 Definition sloc_eqb (a b : sloc) : bool :=
@@ -69,14 +69,15 @@ Definition cl_term := 6.
 Definition cl_char := 7.
 Definition cl_text := 8.
 Definition cl_nofile := 9.
+Definition cl_implicit := 14.
 (* 12 (new: arguments before the constructor reference, 920f952) and 13 (subscript ToString before
    CheckObjectCoercible, 322af24) are repaired in /repo *)
 (* 10 (RegExp pattern TypeError, ef38bfe) and 11 (FileSet.Position, 6df0226) are repaired in /repo *)
 
 Definition with_fix (i : Z) : fixes :=
-  mkFixes (i =? cl_site) (i =? cl_at) (i =? cl_nofile) (i =? cl_term) (i =? cl_char).
+  mkFixes (i =? cl_site) (i =? cl_implicit) (i =? cl_at) (i =? cl_nofile) (i =? cl_term) (i =? cl_char).
 Definition without_fix (i : Z) : fixes :=
-  mkFixes (negb (i =? cl_site)) (negb (i =? cl_at)) (negb (i =? cl_nofile))
+  mkFixes (negb (i =? cl_site)) (negb (i =? cl_implicit)) (negb (i =? cl_at)) (negb (i =? cl_nofile))
           (negb (i =? cl_term)) (negb (i =? cl_char)).
 
 Definition trace_with (fx : fixes) files limit levels r := model_trace fx (pos_of fx) files limit levels r.
@@ -101,7 +102,7 @@ Fixpoint first_necessary (b : fixes) (cands : list Z) (spec : list (Z * sloc)) f
       then first_necessary b rest spec files limit levels r else i
   end.
 
-Definition cands := [cl_site; cl_at; cl_nofile; cl_term; cl_char].
+Definition cands := [cl_site; cl_implicit; cl_at; cl_nofile; cl_term; cl_char].
 
 Definition trace_class (b : fixes) files limit levels r : Z :=
   let base := trace_with b files limit levels r in
